@@ -387,11 +387,42 @@ func enumGenerators(r *ev.Run) {
 	if th {
 		maxStops = 40
 	}
+	// stop counts beyond the contiguous range at which the floating-point identities a seam may rely on fail
+	// (n steps of 2 pi / n do not land on 2 pi, -pi plus them not on pi, n * (1/n) != 1): where a seam closed
+	// "by value" instead of by index opens up
+	var seamStops []int
+	for n := maxStops + 1; n <= 200 && len(seamStops) < 14; n++ {
+		f := float64(n)
+		step := 2 * math.Pi / f
+		if f*step != 2*math.Pi || -math.Pi+f*step != math.Pi || f*(1/f) != 1 || math.Sin(f*step) != math.Sin(2*math.Pi) {
+			seamStops = append(seamStops, n)
+		}
+	}
+	r.Set("seam_sensitive_stop_counts", seamStops)
 	for ri, rf := range radii {
+		var all []int
 		for stops := 3; stops <= maxStops; stops++ {
+			all = append(all, stops)
+		}
+		all = append(all, seamStops...)
+		for _, stops := range all {
 			rf, stops := rf, stops
 			checkClosed(r, "NewMeshPolar", mcCase{Kind: "gen", Gen: "NewMeshPolar", Args: []float64{float64(ri), float64(stops)}}, func() *model3d.Mesh { return model3d.NewMeshPolar(rf, stops) }, 2)
 		}
+	}
+	for _, stops := range seamStops {
+		stops := stops
+		p1 := model3d.XYZ(1, -2, 0.5)
+		p2 := p1.Add(model3d.XYZ(0.3, -0.2, 0.9))
+		args := []float64{-1, float64(stops), 0.5, 1}
+		checkClosed(r, "NewMeshCylinder", mcCase{Kind: "gen", Gen: "NewMeshCylinder", Args: args}, func() *model3d.Mesh { return model3d.NewMeshCylinder(p1, p2, 0.5, stops) }, 2)
+		checkClosed(r, "NewMeshCone", mcCase{Kind: "gen", Gen: "NewMeshCone", Args: args}, func() *model3d.Mesh { return model3d.NewMeshCone(p1, p2, 0.5, stops) }, 2)
+		checkClosed(r, "NewMeshTorus", mcCase{Kind: "gen", Gen: "NewMeshTorus", Args: []float64{-1, float64(stops), 5, 0}}, func() *model3d.Mesh {
+			return model3d.NewMeshTorus(p1, model3d.XYZ(0.3, -0.2, 0.9), 0.2, 1, stops, 5)
+		}, 0)
+		checkClosed(r, "NewMeshTorus", mcCase{Kind: "gen", Gen: "NewMeshTorus", Args: []float64{-1, 5, float64(stops), 0}}, func() *model3d.Mesh {
+			return model3d.NewMeshTorus(p1, model3d.XYZ(0.3, -0.2, 0.9), 0.2, 1, 5, stops)
+		}, 0)
 	}
 	// Icosphere
 	maxN := 4
